@@ -103,6 +103,36 @@ def run(F, ck, tier):
         ok = 'CHARACTERISTIC_TWO_ADICITY' in names and 'TWO_ADICITY' not in names
         ck.ob('R14.3', 'inverse_2exp.threshold', ok, 'exp is compared with CHARACTERISTIC_TWO_ADICITY' if ok else
               'inverse_2exp compares exp with %s: the exact-shift shortcut p - (p-1)/2^exp is only valid while 2^exp divides char(F) - 1; extension fields have TWO_ADICITY > CHARACTERISTIC_TWO_ADICITY' % names, '%s:%d' % (inv[0].file, inv[0].line))
+    # R14.4 value tests never look at the raw representation
+    ck.rule('R14.4', 'no comparison on the raw representation `.0` of a GoldilocksField in the field crate outside `assume(..)` optimiser hints and constant assertions: zero / equality tests go through is_zero / PartialEq / to_canonical_u64, which canonicalise')
+    from .facts import walk as _walk
+    nraw = 0
+    for fn in sorted(F.fns.values(), key=lambda f: f.qual):
+        if fn.crate != 'plonky2_field' or fn.body is None:
+            continue
+        # nodes that are arguments of assume(..)
+        hinted = set()
+        for x in _walk(fn.body):
+            if x.get('k') == 'Call' and (x['f'].get('d') or '').split('::')[-1] in ('assume', 'assert_unchecked'):
+                for a in x['a']:
+                    hinted |= {id(y) for y in _walk(a)}
+        for n in _walk(fn.body):
+            if n.get('k') != 'Bin' or n['op'] not in ('Eq', 'Ne', 'Lt', 'Le', 'Gt', 'Ge'):
+                continue
+            raw = False
+            for side in (n['l'], n['r']):
+                x = side
+                while x.get('k') in ('Ref', 'Un', 'Cast'):
+                    x = x['e']
+                if x.get('k') == 'Field' and x.get('n') == '0' and (fn.ty(x['e']) or '').replace('&', '').strip().endswith('GoldilocksField'):
+                    raw = True
+            if not raw:
+                continue
+            nraw += 1
+            ok = id(n) in hinted or fn.qual == 'ASSERT' or fn.name.isupper()
+            ck.ob('R14.4', 'raw-compare:%s:%s' % (fn.qual, n['op']), ok, 'optimiser hint / constant assertion' if ok else
+                  '%s compares the raw representation `.0` of a field element (%s): a non-canonical representative of the same value (e.g. ORDER for zero) takes the other branch' % (fn.qual, n['op']), n.get('s'))
+    ck.floor('R14.4', 'raw-representation comparisons seen (hints and constant assertions)', nraw, 5)
     ck.decided += ['add_no_canonicalize_trashing_input precondition holds at its call sites', 'canonical constants at add/sub_canonical_u64 call sites', 'inverse_2exp threshold']
     ck.undecided += ['that any operator returns the correct residue (numeric)', 'the reduce160 magnitude bound at its 11 call sites (needs a 160-bit relational domain; not built)', 'extension-field axioms, Frobenius, batch inversion', 'packed AVX2/AVX-512 lanes', 'the assume() hints in Add/Sub']
     return 'Decides only three narrow structural clauses of C14 (interval discharge of one unchecked precondition, canonical constants, one threshold constant). The property proper - exactness on all operands - is numeric and is not decided.'
